@@ -50,7 +50,7 @@ func TestVerifC04PPROF(t *testing.T) {
 		routes = append(routes, vmon.AdminRoute{Method: ri.Method, URL: fmt.Sprintf("http://127.0.0.1:%d%s", port, ri.Path), Action: "pprof"})
 	}
 	r.Count("pprof_routes_from_live_router", int64(len(routes)))
-	vmon.AdminAuthMonitor(r, vmon.AdminCfg{TrustedProxy: trusted, Name: "pprof", Routes: routes, Batches: r.N(2, 200),
+	vmon.AdminAuthMonitor(r, vmon.AdminCfg{TrustedProxy: trusted, Name: "pprof", Routes: routes, Batches: r.N(2, 40),
 		SetUsers: func(uj string) error {
 			var users []conf.AuthInternalUser
 			if err := json.Unmarshal([]byte(uj), &users); err != nil {
